@@ -882,7 +882,26 @@ func (c *Ctx) slotOf(pk *pkgT, fd *ast.FuncDecl, bi bodyInfo, e ast.Expr) string
 			// parameter of a literal passed to COLL.Update(k, lit)
 			if bi.lit != nil && paramIndexOfLit(info, bi.lit, obj) == 0 {
 				if call := callReceivingLit(fd, bi.lit); call != nil && len(call.Args) == 2 {
-					return types.ExprString(Recv(call)) + "[" + types.ExprString(call.Args[0]) + "]." + strings.Join(path, ".")
+					coll := types.ExprString(Recv(call))
+					// a typed wrapper `c.updateX(id, func(v *X) {...})` around COLL.Update(id, ...):
+					// the collection is the one the wrapper updates under its first parameter
+					if g := Callee(info, call); g != nil && g.Name() != "Update" {
+						if gd := c.P.Decl(g); gd != nil && len(gd.Type.Params.List) > 0 && len(gd.Type.Params.List[0].Names) > 0 {
+							gpk := c.P.PkgOfDecl(gd)
+							p0 := gpk.TypesInfo.ObjectOf(gd.Type.Params.List[0].Names[0])
+							ast.Inspect(gd.Body, func(y ast.Node) bool {
+								if inner, ok := y.(*ast.CallExpr); ok && len(inner.Args) == 2 {
+									if h := Callee(gpk.TypesInfo, inner); h != nil && h.Name() == "Update" {
+										if id0, ok := ast.Unparen(inner.Args[0]).(*ast.Ident); ok && gpk.TypesInfo.ObjectOf(id0) == p0 {
+											coll = types.ExprString(Recv(inner))
+										}
+									}
+								}
+								return true
+							})
+						}
+					}
+					return coll + "[" + types.ExprString(call.Args[0]) + "]." + strings.Join(path, ".")
 				}
 				return ""
 			}
@@ -997,12 +1016,22 @@ func RuleCK1(c *Ctx) {
 		sc.Undecided("anchors", "-", "unresolved anchor: core.PathParameters / checkSimilarPaths / handler table")
 		return
 	}
+	// every function that derives path parameters on behalf of a handler: the handlers
+	// themselves, and the helpers they (transitively) call
 	seen := map[*types.Func]bool{}
+	var cands []*types.Func
 	for _, h := range table {
-		if seen[h] {
-			continue
+		if hd := c.P.Decl(h); hd != nil {
+			for _, f := range reachStatic(c.P, c.P.PkgOfDecl(hd), []*types.Func{h}) {
+				if !seen[f] && f != chk && f != pp {
+					seen[f] = true
+					cands = append(cands, f)
+				}
+			}
 		}
-		seen[h] = true
+	}
+	sort.Slice(cands, func(i, j int) bool { return cands[i].FullName() < cands[j].FullName() })
+	for _, h := range cands {
 		fd := c.P.Decl(h)
 		if fd == nil {
 			continue
